@@ -444,6 +444,7 @@ impl DefragQueue {
         self.frame_window_size = None;
         self.final_packet_size = None;
         self.expected_frames = None;
+        self.last_frame_offset = None;
         self.idle = false;
         self.stream_offset = frame.header.stream_offset;
     }
@@ -545,7 +546,7 @@ impl DefragQueue {
         };
 
         // One time Operation after we received last and any middle frame
-        if let (Some(final_packet_size), Some(frame_window_size), Some(last_frame_offset), None) = (
+        if let (Some(_), Some(frame_window_size), Some(last_frame_offset), None) = (
             self.final_packet_size,
             self.frame_window_size,
             self.last_frame_offset,
@@ -565,10 +566,12 @@ impl DefragQueue {
             }
 
             // Only after we have received the last frame, and any middle frame, we know how many
-            // frames to expect and the final packet size.
-            let expected_frames = final_packet_size.div_ceil(frame_window_size);
+            // frames to expect and the final packet size: every frame in front of the last
+            // frame, plus the last frame itself (which may be empty or longer than a window,
+            // so it must not be derived from the packet size).
+            let expected_frames = last_frame_offset as usize / frame_window_size + 1;
             // expected_frames is guaranteed to be <= MAX_FRAMES
-            // because final_packet_size <= MAX_PACKET_SIZE
+            // because last_frame_offset <= MAX_PACKET_SIZE
             // and     frame_window_size >= MIN_PAYLOAD_SIZE
 
             self.expected_frames = Some(expected_frames);
@@ -595,7 +598,7 @@ impl DefragQueue {
 
         // Check if we have received all frames
         if let Some(expected_frames) = self.expected_frames
-            && self.received_frames() == expected_frames
+            && self.received_all_frames(expected_frames)
         {
             self.idle = true;
             let packet_size = self.final_packet_size.unwrap_or(MAX_PACKET_SIZE);
@@ -609,8 +612,31 @@ impl DefragQueue {
         Ok(None)
     }
 
-    fn received_frames(&self) -> usize {
-        self.recv_mask.iter().map(|m| m.count_ones() as usize).sum()
+    /// Returns true once the last frame and every frame in front of it have been received.
+    ///
+    /// Counting received frames is not enough: a frame at or behind the last frame's offset
+    /// would stand in for a missing one, and the packet would be emitted with a gap that still
+    /// holds bytes of an earlier packet.
+    fn received_all_frames(&self, expected_frames: usize) -> bool {
+        // Frames in front of the last one use the indices 0..expected_frames - 1, the last
+        // frame always uses the special index MAX_FRAMES - 1.
+        let mut remaining = expected_frames.saturating_sub(1);
+        for (i, mask) in self.recv_mask.iter().enumerate() {
+            let bits = remaining.min(BITMASK_ENTRY_BITS);
+            remaining -= bits;
+            let mut required: BitmaskType = if bits == BITMASK_ENTRY_BITS {
+                BitmaskType::MAX
+            } else {
+                (1 << bits) - 1
+            };
+            if i == BITMASK_ENTRY_COUNT - 1 {
+                required |= 1 << ((MAX_FRAMES - 1) % BITMASK_ENTRY_BITS);
+            }
+            if mask & required != required {
+                return false;
+            }
+        }
+        true
     }
 
     pub fn is_idle(&self) -> bool {
